@@ -4,7 +4,10 @@
 package c08
 
 import (
+	"database/sql"
+
 	"fmt"
+	_ "github.com/alicebob/sqlittle/driver"
 	"strings"
 	"testing"
 	"verif/fold"
@@ -34,7 +37,7 @@ type spec struct {
 }
 
 var writeKinds = []string{"insert", "insert", "update", "delete", "bulk", "bulk-big", "create-table", "drop-table", "create-index", "drop-index", "alter", "vacuum", "incr-vacuum", "delete-all", "update-grow", "vacuum-pagesize"}
-var readKinds = []string{"select", "select", "indexed", "rowid", "columns", "low-scan", "low-tables", "low-schema", "low-all", "repeat", "pk"}
+var readKinds = []string{"select", "select", "indexed", "rowid", "columns", "low-scan", "low-tables", "low-schema", "low-all", "repeat", "pk", "prepared"}
 
 func TestC08History(t *testing.T) {
 	vt.Exec(t, vt.Check[spec]{
@@ -125,6 +128,18 @@ func run(r *vt.Run, t vt.TB, s spec) {
 		r.Harness(t, "open low: %v", err)
 	}
 	defer lo.Close()
+	sqldb, err := sql.Open("sqlittle", path)
+	if err != nil {
+		r.Harness(t, "sql.Open: %v", err)
+	}
+	defer sqldb.Close()
+	sqldb.SetMaxOpenConns(1) // one connection: the prepared statements live on it
+	prepared := map[string]*sql.Stmt{}
+	defer func() {
+		for _, st := range prepared {
+			st.Close()
+		}
+	}()
 
 	exec := func(sql string) bool {
 		if err := env.O.Exec("w", sql); err != nil {
@@ -335,7 +350,7 @@ func run(r *vt.Run, t vt.TB, s spec) {
 			}
 
 		// ---------------- reads on the long-lived handles
-		case "select", "indexed", "rowid", "columns", "pk":
+		case "select", "indexed", "rowid", "columns", "pk", "prepared":
 			if tm == nil {
 				continue
 			}
@@ -361,6 +376,44 @@ func run(r *vt.Run, t vt.TB, s spec) {
 					var got [][]interface{}
 					err := hi.Select(tmc.name, func(row sqlittle.Row) { got = append(got, append([]interface{}{}, row...)) }, cols...)
 					return fmt.Sprint(got), cmpRows("Select("+tmc.name+")", got, err, want)
+				case "prepared":
+					// a long-lived prepared statement of the database/sql driver
+					st := prepared[tmc.name]
+					if st == nil {
+						var err error
+						if st, err = sqldb.Prepare("SELECT * FROM " + tmc.name); err != nil {
+							fail("read-error", "Prepare(SELECT * FROM %s): %v", tmc.name, err)
+							return "", false
+						}
+						prepared[tmc.name] = st
+					}
+					want := query(fmt.Sprintf("SELECT %s FROM %s ORDER BY %s", sel, tmc.name, tmc.orderBy()))
+					var got [][]interface{}
+					rows, err := st.Query()
+					if err == nil {
+						gotCols, _ := rows.Columns()
+						if strings.Join(gotCols, ",") != strings.Join(cols, ",") {
+							rows.Close()
+							fail("stale-schema", "prepared SELECT * FROM %s: columns %v; the table has %v", tmc.name, gotCols, cols)
+							return "", false
+						}
+						for rows.Next() {
+							dest := make([]interface{}, len(gotCols))
+							ptrs := make([]interface{}, len(gotCols))
+							for i := range dest {
+								ptrs[i] = &dest[i]
+							}
+							if err = rows.Scan(ptrs...); err != nil {
+								break
+							}
+							got = append(got, dest)
+						}
+						if err == nil {
+							err = rows.Err()
+						}
+						rows.Close()
+					}
+					return fmt.Sprint(got), cmpRows("prepared SELECT * FROM "+tmc.name, got, err, want)
 				case "indexed":
 					if len(tmc.indexes) == 0 {
 						return "", true
